@@ -81,4 +81,21 @@ def check(prog, ctx):
     return viol
 
 
-SUBS = [Sub("programs", check, strategy=strategy, reduce=reduce.candidates, examples={"quick": 6000, "thorough": 200000})]
+def sizes(tier):
+    from ..e1 import wide
+    return wide.specs(["tuple-consts", "list-consts", "dict-consts", "fan-tasks", "fan-sync-first"], tier == "quick")
+
+
+def check_sizes(spec, ctx):
+    from ..e1 import wide
+    prog = wide.expand(spec)
+    env = engine.run_program(prog)
+    r, exp = expected(prog, env)
+    viol = []
+    compare(env, r, exp, viol)
+    ctx.label("wide:" + spec["shape"])
+    ctx.nontrivial(spec)
+    return [(s, "%r: %s" % (spec, m[:600])) for s, m in viol]
+
+SUBS = [Sub("programs", check, strategy=strategy, reduce=reduce.candidates, examples={"quick": 6000, "thorough": 200000}),
+        Sub("sizes", check_sizes, enumerate=sizes)]
